@@ -180,6 +180,13 @@ def obligations(pid):
     return res
 
 
+def coqchk(pid):
+    """thorough tier: re-check the compiled closure of Props/<pid>.vo with the independent checker and list the axioms it reports"""
+    rc, out = sh(['bash', '-c', 'cd %s && ulimit -s unlimited; timeout 3000 coqchk -o -silent -Q theories RBQL RBQL.Props.%s 2>&1' % (COQ, pid)], timeout=3100)
+    ok = rc == 0 and 'Axioms: <none>' in out and 'type-in-type: <none>' in out and 'unsafe (co)fixpoints: <none>' in out and 'positivity is assumed: <none>' in out
+    return ok, out[-1500:]
+
+
 # ------------------------------------------------------------------ sx encoding
 
 def enc(x):
@@ -578,6 +585,12 @@ class Ctx:
 
     # -- finish
     def finish(self, obl, build_log=''):
+        chk = None
+        if self.tier == 'thorough' and obl['ok']:
+            okc, outc = coqchk(self.pid)
+            chk = {'cmd': 'coqchk -o -silent -Q theories RBQL RBQL.Props.%s' % self.pid, 'ok': okc, 'summary': outc[-700:]}
+            if not okc:
+                self.violation({'coqchk': self.pid}, None, None, 'coqchk', 'coqchk does not accept the compiled closure of Props/%s.vo or reports axioms: %s' % (self.pid, outc[-800:]), no_input=True)
         wall = time.time() - self.t0
         n_obl = len(obl['theorems'])
         discharged = n_obl if obl['ok'] else 0
@@ -612,6 +625,8 @@ class Ctx:
             'known_findings_hit': self.known_hits,
             'notes': self.notes,
         }
+        if chk is not None:
+            cov['coqchk'] = chk
         if self.exhaustive is not None:
             cov['exhaustive'] = self.exhaustive
         ev = {
